@@ -86,9 +86,8 @@ def build_shim():
     """the real CLI with threadpool.c's pthread operations routed to the scheduler shim and lz4io.c observed by the event hooks"""
     srcs = [os.path.join(REPO, "programs", f) for f in ("lz4cli.c", "bench.c", "lorem.c", "util.c", "timefn.c")] + \
            [os.path.join(HC, f) for f in ("threadpool_shim.c", "mt_hooks.c", "sched_shim.c")] + lib_srcs()
-    for h in ("sched_shim.h",):
-        srcs_dep = os.path.join(HC, h)
-    return build_exe("lz4_shim", srcs + [], flags=[XXH, "-DLZ4IO_MULTITHREAD=1", "-I" + HC, "-DSHIM_H_HASH=\"%s\"" % vlib.file_hash([os.path.join(HC, "sched_shim.h")])], opt="-O2")
+    # the header is not a compiled source: its hash goes into a flag so that a change rebuilds the cached binary
+    return build_exe("lz4_shim", srcs, flags=[XXH, "-DLZ4IO_MULTITHREAD=1", "-I" + HC, "-DSHIM_H_HASH=\"%s\"" % vlib.file_hash([os.path.join(HC, "sched_shim.h")])], opt="-O2")
 
 SHIM_RC = {97: "deadlock: no runnable thread (scheduler shim)", 95: "buffer ownership violated (event hooks)",
            96: "replayed schedule not enabled on the real code", 93: "step limit exceeded", 94: "scheduler shim internal error"}
